@@ -247,10 +247,17 @@ def rule_chunk(rep):
         # 5-point ordering evaluation of the accept condition at p in {0,1,max-1,max,max+1}, with 1 <= max-1 assumed
         # distinct only when max >= 2; evaluate symbolically with max = M, using orderings.
         verdicts = {}
-        for label, val in (("0", 0), ("1", 1), ("max-1", 9), ("max", 10), ("max+1", 11)):
-            verdicts[label] = eval_int_cond(sh["accept_cond"], {p: val, "self." + maxf: 10})
         want_v = {"0": False, "1": True, "max-1": True, "max": True, "max+1": False}
-        rep.ob(R, key + "/ordering", verdicts == want_v,
+        try:
+            for label, val in (("0", 0), ("1", 1), ("max-1", 9), ("max", 10), ("max+1", 11)):
+                verdicts[label] = eval_int_cond(sh["accept_cond"], {p: val, "self." + maxf: 10})
+        except ir.AnchorMissing as ex:
+            rep.ob(R, key + "/ordering", False,
+                   "the accept condition `%s` is not a function of the argument and the construction-time size self.%s alone (%s): the accepted range then depends on "
+                   "mutable state instead of being exactly 1..=construction-time chunk size" % (show(sh["accept_cond"]), maxf, ex), where)
+            verdicts = None
+        if verdicts is not None:
+          rep.ob(R, key + "/ordering", verdicts == want_v,
                "accept(%s) at {0,1,max-1,max,max+1} = %s, documented %s (condition: %s)" % (p, verdicts, want_v, show(sh["accept_cond"])), where,
                sample={"type": tname, "cond": show(sh["accept_cond"]), "verdicts": verdicts})
         only = all(refs_only(a, {p, "self." + maxf}) for a in flatten_and(sh["accept_cond"]))
